@@ -37,7 +37,7 @@ PASS_THROUGH = [
     r"Path::new", r"::join$", r"::parent$", r"::as_path$", r"::as_os_str$", r"::path$", r"::into_path$",
     r"::as_span$", r"::into_inner$", r"::start_pos$", r"::end_pos$", r"::last_mut$", r"::as_rule$",
     r"core::fmt::rt::Argument::<'_>::new_", r"::to_lowercase$", r"::to_uppercase$", r"::to_ascii_lowercase$",
-    r"::map_or$", r"::map$", r"::and_then$", r"::ok_or$", r"::unwrap_or_else$", r"::collect$", r"PathBuf::from$", r"::map_err$", r"::then_some$",
+    r"String as std::str::FromStr>::from_str$", r"::map_or$", r"::map$", r"::and_then$", r"::ok_or$", r"::unwrap_or_else$", r"::collect$", r"PathBuf::from$", r"::map_err$", r"::then_some$",
 ]
 _PT = [re.compile(p) for p in PASS_THROUGH]
 
@@ -121,6 +121,11 @@ class Prov:
     def origins_op(self, op):
         c = op_const(op)
         if c is not None:
+            if c.get("unevaluated") and "int" not in c and "str" not in c and self._depth < 3:
+                # a named `const X: T = ..` of this crate: what its initialiser is built from
+                cb = self.body.facts.by_id.get(c["unevaluated"])
+                if cb is not None and cb.id != self.body.id and cb.kind.startswith(("Const", "AssocConst", "Static")):
+                    return Prov(cb, self.extra, self.stop_at, self.interproc, _depth=self._depth + 1).origins(0)
             return {("const", _freeze(c))}
         p = op_place(op)
         if p is None:
